@@ -92,7 +92,9 @@ fn cmd_replay(args: &[String]) -> i32 {
     let limit = arg_u64(args, "--limit", u64::MAX) as usize;
     let out_dir = arg(args, "--out-dir").unwrap_or("/verif/work/replay".into());
     let mixed = !flag(args, "--single-backend");
-    let faults = flag(args, "--faults");
+    // --faults-write: storage faults in write_to_storage only (C07: a key package whose deletion failed once)
+    let faults = flag(args, "--faults") || flag(args, "--faults-write");
+    replay::FAULTS_WRITE_ONLY.store(flag(args, "--faults-write"), std::sync::atomic::Ordering::Relaxed);
     let sqlite = flag(args, "--sqlite");
     let tamper = (arg_u64(args, "--tamper", 0) as usize, flag(args, "--tamper-exhaustive"), seed);
     std::fs::create_dir_all(&out_dir).ok();
